@@ -3,7 +3,7 @@ from __future__ import annotations
 
 from typing import Callable, Dict, Optional
 
-from .rules import align, dispatch, ops, opt, pyx, reg, repres, sig, small, wrappers
+from .rules import alias, align, dispatch, ops, opt, pyx, reg, repres, sig, small, wrappers
 
 _CACHE: Dict[str, object] = {}
 
@@ -28,6 +28,7 @@ RULES: Dict[str, Callable] = {
     "R-OPT-PAIRING": _cached("R-OPT-PAIRING", opt.run_pairing),
     "R-OPT-PINNED": _cached("R-OPT-PINNED", opt.run_pinned),
     "R-ALIGN": _cached("R-ALIGN", align.run),
+    "R-ALIAS": _cached("R-ALIAS", alias.run),
     "R-DELEGATE": _cached("R-DELEGATE", wrappers.run_delegate),
     "R-ORDER": _cached("R-ORDER", wrappers.run_order),
     "R-FWD": _cached("R-FWD", wrappers.run_fwd),
@@ -56,6 +57,11 @@ class Use:
 
 
 PLAN: Dict[str, dict] = {
+    "C17": {
+        "uses": [Use("R-ALIAS")],
+        "explanation": "x",
+        "not_decided": "",
+    },
     "C10": {
         "uses": [Use("R-ALIGN", scoped=True), Use("R-DELEGATE", scoped=True), Use("R-ORDER", scoped=True), Use("R-FWD", scoped=True), Use("R-SIG", scoped=True)],
         "explanation": "x",
